@@ -617,6 +617,88 @@ def analyse_tu(tu):
 
 
 # ---------------------------------------------------------------------------
+# SETITEM-FRESH: the unchecked PyTuple_SET_ITEM / PyList_SET_ITEM macros do not
+# release the item a slot already holds; they are only correct on a container
+# this function created empty (PyTuple_New / PyList_New).
+
+EMPTY_CTORS = ("PyTuple_New", "PyList_New")
+
+
+class _SetItem(Analysis):
+    """Reaching definition kind of container variables: 'E' created empty
+    here, 'O' anything else."""
+    track_flags = False
+
+    def __init__(self, cfg, tu):
+        Analysis.__init__(self, cfg, tu)
+        self.reports = {}
+        self.sites = set()
+
+    def _kind(self, rhs):
+        d = strip(rhs)
+        if d is not None and d.k == "CallExpr" and callee(d)[0] == "fn" and callee(d)[1] in EMPTY_CTORS:
+            return "E"
+        return "O"
+
+    def _walk(self, node, st, e):
+        if e.k == "BinaryOperator" and e.v == "=":
+            st = self._walk(node, st, e.kids[1])
+            lp = path(e.kids[0])
+            if lp is not None:
+                st = sset(st, "v:" + lp, self._kind(e.kids[1]))
+            return st
+        if e.k == "VarDecl" and e.n:
+            init = [c for c in e.kids if c.k != "Absent"]
+            if init:
+                st = self._walk(node, st, init[-1])
+                st = sset(st, "v:" + e.n, self._kind(init[-1]))
+            return st
+        for c in e.kids:
+            st = self._walk(node, st, c)
+        if e.k == "CallExpr":
+            c = callee(e)
+            if c == ("fn", "PyVar_Assign") and len(e.kids) > 2:
+                a0 = strip(e.kids[1])
+                if a0 is not None and a0.k == "UnaryOperator" and a0.v == "&":
+                    lp = path(a0.kids[0])
+                    if lp is not None:
+                        st = sset(st, "v:" + lp, self._kind(e.kids[2]))
+            elif c[0] == "fn" and c[1] in ("PyTuple_SET_ITEM", "PyList_SET_ITEM"):
+                self.sites.add((node.id, e.l, e.c))
+                v = path(e.kids[1])
+                if v is None or sget(st, "v:" + v) != "E":
+                    self.reports.setdefault((e.f, e.l, c[1], v or text(e.kids[1])[:30]), (node, st))
+        return st
+
+    def on_node(self, node, st):
+        if node.e is None:
+            return [st]
+        return [self._walk(node, st, node.e)]
+
+
+def setitem_fresh(tu):
+    findings = []
+    sites = 0
+    for name in tu.order:
+        fn = tu.funcs[name]
+        if not any(n.k == "CallExpr" and callee(n)[0] == "fn" and
+                   callee(n)[1] in ("PyTuple_SET_ITEM", "PyList_SET_ITEM") for n in fn.walk()):
+            continue
+        an = _SetItem(CFG(fn), tu)
+        an.solve()
+        sites += len(an.sites)
+        for (f, l, mac, v), (node, st) in sorted(an.reports.items()):
+            findings.append(dict(
+                rule="SETITEM-FRESH", function=name, file=f, line=l,
+                construct="%s on %s, which is not a container created empty here" % (mac, v),
+                detail="%s stores without releasing the item the slot already "
+                       "holds; on this path %s does not come from %s, so a "
+                       "stored object is overwritten and leaked" % (mac, v, "/".join(EMPTY_CTORS)),
+                path=witness_lines(an.witness(node, st))))
+    return dict(findings=findings, sites=sites)
+
+
+# ---------------------------------------------------------------------------
 # SLOT-PAIR: ownership of key / value slots (object-keyed / -valued TUs)
 
 class SlotPair(Analysis):
